@@ -528,50 +528,67 @@ func BuildPool(e *Eco, r *RNG, n int, extra []string) (*Pool, []string) {
 			p.Vals = append(p.Vals, pr.Val)
 		}
 	}
-	for _, s := range extra {
-		add(s)
-	}
 	clust0, nClust := r.Intn(nClusters), 0
 	nSib, nDec := 0, 0
-	// the maintainers' own test inputs: a seed-dependent sample joins the pool, all of them are
-	// available to the crossover
+	capClust, capSib, capDec := minInt(nClusters, 1+n/6), minInt(10, 1+n/20), minInt(10, 1+n/12)
+	// the maintainers' own test inputs: available to the crossover, a few join the pool
 	hv, _ := harvestedFor(e)
-	if len(hv) > 0 {
-		for _, i := range r.Perm(len(hv)) {
-			if len(p.Strs) >= n/4 {
-				if !seen[hv[i]] {
-					seen[hv[i]] = true
-					all = append(all, hv[i])
-				}
-				continue
-			}
+	for k, i := range r.Perm(len(hv)) {
+		if k < n/10 {
 			add(hv[i])
+		} else if !seen[hv[i]] {
+			seen[hv[i]] = true
+			all = append(all, hv[i])
 		}
 	}
-	for tries := 0; tries < 60*n && len(p.Strs) < n; tries++ {
-		s := gen(r)
-		if r.Chance(8) {
-			s = mutate(r, s)
+	// extras beyond a third of the pool's size come in a seed-dependent order, so that a small
+	// pool does not always hold the same head of a long corpus
+	if k := n / 3; len(extra) > k {
+		tail := append([]string{}, extra[k:]...)
+		perm := r.Perm(len(tail))
+		ex2 := append([]string{}, extra[:k]...)
+		for _, i := range perm {
+			ex2 = append(ex2, tail[i])
+		}
+		extra = ex2
+	}
+	// one stream: first the extra texts (corpus, families), then the grammar-directed generator;
+	// the variant families below are derived from whatever the stream delivers
+	for tries := 0; tries < 60*n+len(extra) && len(p.Strs) < n; tries++ {
+		var s string
+		if tries < len(extra) {
+			s = extra[tries]
+		} else {
+			s = gen(r)
+			if r.Chance(8) {
+				s = mutate(r, s)
+			}
 		}
 		add(s)
-		// versions that differ only in one number, taken from both sides of one machine-word or
-		// decimal-width boundary (boundary.go)
 		switch {
 		case tries%16 == 5 && len(all) > 4:
 			// crossover of two candidates seen so far (corpus, harvested test literals, generated)
 			add(splice(r, all[r.Intn(len(all))], all[r.Intn(len(all))]))
-		case tries%16 == 9 && nSib < 1+n/20:
-			for _, t := range prefixSiblings(r, s) {
+		case tries%16 == 9 && nSib < capSib:
+			// half of the time on a text with a rare syntactic feature (a punctuation byte few
+			// candidates have: alpine ~hash, pypi !epoch, ...)
+			src, after := s, byte(0)
+			if r.Chance(50) {
+				src, after = pickRare(r, all, s)
+			}
+			for _, t := range prefixSiblingsAfter(r, src, after) {
 				add(t)
 			}
 			nSib++
-		case tries%16 == 13 && nDec < 1+n/12:
+		case tries%16 == 13 && nDec < capDec:
 			for _, t := range decorations(r, s) {
 				add(t)
 			}
 			nDec++
 		}
-		if tries%4 == 3 && nClust < 1+n/6 {
+		// versions that differ only in one number, taken from both sides of one machine-word or
+		// decimal-width boundary (boundary.go)
+		if tries%4 == 3 && nClust < capClust {
 			for _, t := range boundaryVariants(r, s, 3, clust0+nClust) {
 				add(t)
 			}
